@@ -213,7 +213,7 @@ def keyRankT (k : Key) (p : TP) (v : Nat) : Option Nat :=
   | .tsl e _ => keyRankT k e (decay v)
   | .tsd s e => optMin (keyRankS k s SCALAR_VAR_RANK) (keyRankT k e (decay v))
   | .tsbVar n => if k = .ts n then some (decay v) else none
-  | .tsb fs => keyRankFields k fs (decay v)
+  | .tsb _ fs => keyRankFields k fs (decay v)
   | .ref t => keyRankT k t v
 def keyRankFields (k : Key) (fs : PFields) (v : Nat) : Option Nat :=
   match fs with
@@ -233,7 +233,7 @@ def structT : TP → Nat
   | .tsl e _ => 1 + structT e
   | .tsd _ e => 1 + structT e
   | .tsbVar _ => 1
-  | .tsb fs => 1 + structFields fs
+  | .tsb _ fs => 1 + structFields fs
   | .ref t => structT t
 def structFields : PFields → Nat
   | .nil => 0
@@ -300,7 +300,7 @@ theorem collectT_spec : ∀ (p : TP) (a : RankAcc) (v : Nat), AccOk a →
     split
     · rename_i hk; subst hk; rfl
     · simp
-  | .tsb fs, a, v, h => by
+  | .tsb _ fs, a, v, h => by
     have := collectFields_spec fs a.bump (decay v) (accOk_bump h)
     exact ⟨this.1, by simp only [collectT, structT]; rw [this.2.1, bump_structural]; omega,
       fun k => by simp only [collectT, keyRankT]; rw [this.2.2 k, bump_vars]⟩
@@ -437,7 +437,7 @@ theorem keyRankT_pos {k : Key} : ∀ (p : TP) (v b : Nat), 1 ≤ v → keyRankT 
     split at h
     · cases h; exact decay_pos v
     · cases h
-  | .tsb fs, v, b, _, h => keyRankFields_pos fs (decay v) b (decay_pos v) (by simpa [keyRankT] using h)
+  | .tsb _ fs, v, b, _, h => keyRankFields_pos fs (decay v) b (decay_pos v) (by simpa [keyRankT] using h)
   | .ref t, v, b, hv, h => keyRankT_pos t v b hv (by simpa [keyRankT] using h)
 theorem keyRankFields_pos {k : Key} : ∀ (fs : PFields) (v b : Nat), 1 ≤ v → keyRankFields k fs v = some b → 1 ≤ b
   | .nil, _, _, _, h => by simp [keyRankFields] at h
@@ -496,7 +496,7 @@ def applyT (σ : GSubst) : TP → TP
   | .tsw s w => .tsw (applyS σ s) w
   | .tsl e sz => .tsl (applyT σ e) (applySz σ sz)
   | .tsd k v => .tsd (applyS σ k) (applyT σ v)
-  | .tsb fs => .tsb (applyFields σ fs)
+  | .tsb nm fs => .tsb nm (applyFields σ fs)
   | .ref t => .ref (applyT σ t)
 def applyFields (σ : GSubst) : PFields → PFields
   | .nil => .nil
@@ -567,7 +567,7 @@ theorem keyRankT_apply (σ : GSubst) (k : Key) : ∀ (p : TP) (v : Nat),
   | .tsd s e, v => by
     simp only [applyT, keyRankT]
     rw [keyRankS_apply, keyRankT_apply σ k e, optMin_ite]
-  | .tsb fs, v => by simp only [applyT, keyRankT]; exact keyRankFields_apply σ k fs _
+  | .tsb _ fs, v => by simp only [applyT, keyRankT]; exact keyRankFields_apply σ k fs _
   | .ref t, v => by simp only [applyT, keyRankT]; exact keyRankT_apply σ k t v
 theorem keyRankFields_apply (σ : GSubst) (k : Key) : ∀ (fs : PFields) (v : Nat),
     keyRankFields k (applyFields σ fs) v = if σ.dom k then none else keyRankFields k fs v
@@ -588,7 +588,7 @@ theorem structT_apply (σ : GSubst) : ∀ p : TP, structT (applyT σ p) ≤ stru
   | .tsw _ _ => by simp [applyT, structT]
   | .tsl e _ => by simp only [applyT, structT]; have := structT_apply σ e; omega
   | .tsd _ e => by simp only [applyT, structT]; have := structT_apply σ e; omega
-  | .tsb fs => by simp only [applyT, structT]; have := structFields_apply σ fs; omega
+  | .tsb _ fs => by simp only [applyT, structT]; have := structFields_apply σ fs; omega
   | .ref t => by simp only [applyT, structT]; exact structT_apply σ t
 theorem structFields_apply (σ : GSubst) : ∀ fs : PFields, structFields (applyFields σ fs) ≤ structFields fs
   | .nil => by simp [applyFields]
@@ -633,7 +633,7 @@ def instantiateT (σ : Name → Option TP) : TP → TP
     | none => .var n cs
   | .tsl e sz => .tsl (instantiateT σ e) sz
   | .tsd k v => .tsd k (instantiateT σ v)
-  | .tsb fs => .tsb (instantiateFields σ fs)
+  | .tsb nm fs => .tsb nm (instantiateFields σ fs)
   | .ref t => .ref (instantiateT σ t)
   | .conc c => .conc c
   | .ts s => .ts s
@@ -662,7 +662,7 @@ def plainT (x : Name) : TP → Bool
   | .tsbVar n => decide (n ≠ x)
   | .tsl e _ => plainT x e
   | .tsd _ v => plainT x v
-  | .tsb fs => plainFields x fs
+  | .tsb _ fs => plainFields x fs
   | .ref t => plainT x t
   | .conc _ => true
   | .ts _ => true
@@ -680,7 +680,7 @@ def occT (x : Name) : TP → Nat
   | .var n _ => if n = x then 1 else 0
   | .tsl e _ => occT x e
   | .tsd _ v => occT x v
-  | .tsb fs => occFields x fs
+  | .tsb _ fs => occFields x fs
   | .ref t => occT x t
   | .tsbVar _ => 0
   | .conc _ => 0
@@ -713,7 +713,7 @@ theorem structT_instantiate (x : Name) (r : TP) : ∀ q : TP,
     by_cases h : n = x <;> simp [h, structT]
   | .tsl e _ => by simp only [instantiateT, structT, occT, structT_instantiate x r e]; omega
   | .tsd _ e => by simp only [instantiateT, structT, occT, structT_instantiate x r e]; omega
-  | .tsb fs => by simp only [instantiateT, structT, occT, structFields_instantiate x r fs]; omega
+  | .tsb _ fs => by simp only [instantiateT, structT, occT, structFields_instantiate x r fs]; omega
   | .ref t => by simp only [instantiateT, structT, occT, structT_instantiate x r t]
   | .tsbVar _ => by simp [instantiateT, structT, occT]
   | .conc _ => by simp [instantiateT, structT, occT]
@@ -797,7 +797,7 @@ theorem keyRankT_minPreserving (k : Key) : ∀ p : TP, MinPreserving (keyRankT k
     split
     · simp [optMin, decay_min]
     · rfl
-  | .tsb fs => by
+  | .tsb _ fs => by
     intro a b
     simp only [keyRankT, decay_min]
     exact keyRankFields_minPreserving k fs _ _
@@ -883,7 +883,7 @@ theorem keyRankT_instantiate (x : Name) (r : TP) (k : Key) : ∀ (q : TP) (v : N
     simp only [plainT] at hp
     simp only [instantiateT, keyRankT, keyRankS_ts, optMin_none_left]
     rw [keyRankT_instantiate x r k e _ hp, mask_optMin, mask_keyRankS, optMin_assoc]
-  | .tsb fs, v, hp => by
+  | .tsb _ fs, v, hp => by
     simp only [plainT] at hp
     simp only [instantiateT, keyRankT]
     exact keyRankFields_instantiate x r k fs _ hp
